@@ -761,7 +761,7 @@ func init() {
 			v.Nontrivial = true
 			return v
 		},
-		Rule:       "exhaustive grid: 1..4 conditional branches x all truth assignments x default present/absent x every subset of branches leading to the join (others end in their own end event) x all finishing orders of the activated branches; fork checked exactly (requests = true conditions / default alone / error trace), join checked against the window the statement gives (not before every activated joining branch delivered, exactly once by the time every token of the fork has arrived or ended, never twice); storm variants answer all branches concurrently with tracker hooks active; loop variants (n <= 3) send the token behind the join back through the same fork and join for a second activation with every truth assignment (stored by the answer of the task behind the join) and two finishing orders, all rules applied again per activation; two tokens reaching one fork one after the other from two start events (n <= 2, every pair of truth assignments, default absent / first / last): each token on its own gets its branches, the default alone, or an error trace; every cell non-trivial; distinct = descriptor hash",
+		Rule:       "exhaustive grid: 1..4 conditional branches x all truth assignments x default present/absent x every subset of branches leading to the join (others end in their own end event) x all finishing orders of the activated branches; fork checked exactly (requests = true conditions / default alone / error trace), join checked against the window the statement gives (not before every activated joining branch delivered, exactly once by the time every token of the fork has arrived or ended, never twice); storm variants answer all branches concurrently with tracker hooks active; loop variants (n <= 3) send the token behind the join back through the same fork and join for a second activation with every truth assignment (stored by the answer of the task behind the join) and two finishing orders, all rules applied again per activation; two tokens reaching one fork one after the other from two start events (n <= 2, every pair of truth assignments, default absent / first / last): each token on its own gets its branches, the default alone, or an error trace; every cell non-trivial; distinct = descriptor hash; via family: a forwarding exclusive or parallel gateway between every branch's task and the join / end event",
 		Exhaustive: func(string) bool { return true },
 		Assumptions: []string{"branches contain single tasks; nested gateways inside inclusive blocks are C01's territory"},
 	})
